@@ -12,7 +12,7 @@ PROPS["C01"] = dict(
          "a comparison is non-trivial iff >=1 UPDATE reached that peer since the previous comparison; distinct by (peer kind, add-path, event-kind multiset hash)",
     assumptions=["net.Pipe transports (no kernel buffering): back-pressure and coalescing are more frequent than on TCP, never less",
                  "hold time 0 on all sessions (no keepalives)"],
-    must_count=["quiescent_comparisons", "comparisons_after_updates", "addpath_comparisons", "ev_announce", "ev_withdraw", "ev_flap", "ev_reestablish", "ev_burst"],
+    must_count=["quiescent_comparisons", "comparisons_after_updates", "addpath_comparisons", "ev_announce", "ev_withdraw", "ev_flap", "ev_reestablish", "ev_burst", "ev_route-refresh", "ev_delete-peer", "ev_add-peer", "histories_with_yield_hook", "histories_with_export_policy", "yield_points_passed"],
     min_nontrivial=20,
     units=[dict(name="sim", harness="t_server", files=["sim_", "c01_"], run="TestVerifC01",
                 shards=dict(quick=16, thorough=16), timeout_s=dict(quick=1800, thorough=10800))],
